@@ -647,3 +647,78 @@ def _hc_shared_collection():
         return _many_case(['route 10.0.0.0/24 next-hop self'], [0, 1, 2]) is not None
     finally:
         Neighbor.resolve_self = real
+
+
+# ---------------------------------------------------------------------------------------------------------------------
+# two routes queued in ONE flush window of the outgoing RIB: what a route is sent with does not depend on the route queued
+# beside it.  The RIB groups routes by the index of their attribute collection: two collections which PACK differently
+# and share an index leave with one another's attributes.
+SHARING = [
+    ('route 10.0.1.0/24 next-hop 192.0.2.1', 'route 10.0.0.0/24 next-hop 192.0.2.1 as-path [ ]'),
+    ('route 10.0.1.0/24 next-hop 192.0.2.1 med 0', 'route 10.0.0.0/24 next-hop 192.0.2.1'),
+    ('route 10.0.1.0/24 next-hop 192.0.2.1 local-preference 0', 'route 10.0.0.0/24 next-hop 192.0.2.1'),
+    ('route 10.0.1.0/24 next-hop 192.0.2.1 origin igp', 'route 10.0.0.0/24 next-hop 192.0.2.1'),
+    ('route 10.0.1.0/24 next-hop 192.0.2.1 as-path [ 65000 ]', 'route 10.0.0.0/24 next-hop 192.0.2.1 as-path ( 65000 )'),
+    ('route 10.0.1.0/24 next-hop 192.0.2.1 community [ 65000:1 65000:2 ]', 'route 10.0.0.0/24 next-hop 192.0.2.1 community [ 65000:2 65000:1 ]'),
+    ('route 10.0.1.0/24 next-hop 192.0.2.1 aggregator ( 65000:1.2.3.4 )', 'route 10.0.0.0/24 next-hop 192.0.2.1 atomic-aggregate'),
+    ('route 10.0.1.0/24 next-hop 192.0.2.1 attribute [ 0x99 0xe0 0x01 ]', 'route 10.0.0.0/24 next-hop 192.0.2.1 attribute [ 0x99 0xe0 0x02 ]'),
+    ('route 10.0.1.0/24 next-hop 192.0.2.1 extended-community [ target:65000:1 ]', 'route 10.0.0.0/24 next-hop 192.0.2.1 extended-community [ origin:65000:1 ]'),
+]
+
+
+def _sent_attributes(kind, texts):
+    """{prefix bytes: sorted [(type, value)]} for the routes of `texts` queued, in this order, in one outgoing RIB"""
+    from exabgp.protocol.family import AFI, SAFI
+    from exabgp.rib.outgoing import OutgoingRIB
+    from .ribharness import route as mk
+    from . import harness as H
+
+    nb, neg = H.session(kind)
+    rib = OutgoingRIB(True, {(AFI.ipv4, SAFI.unicast)})
+    for t in texts:
+        body = t.split(' ', 1)[1]
+        pfx, rest = body.split(' next-hop 192.0.2.1', 1)
+        rib.add_to_rib(nb.resolve_self(mk(pfx, None, extra=rest.strip())))
+    out = {}
+    for u in rib.updates(True):
+        if not hasattr(u, 'messages'):
+            continue
+        for m in u.messages(neg, True):
+            d = decode_update(bytes(m))
+            attrs = sorted((t, bytes(v).hex()) for _f, t, v in d['attributes'] if t not in (14, 15))
+            for e in d['nlri']:
+                out[bytes(e[-1]).hex()] = attrs
+    return out
+
+
+def sharing_case(kind, a, b):
+    inp = {'kind': kind, 'routes_in_one_window': [a, b]}
+    try:
+        alone = {**_sent_attributes(kind, [a]), **_sent_attributes(kind, [b])}
+        together = _sent_attributes(kind, [a, b])
+    except Exception as e:  # noqa
+        return {'what': f'RIB / encoder raised {type(e).__name__}: {str(e)[:150]}', 'input': inp}
+    if set(together) != set(alone):
+        return {'what': f'two routes queued together: the prefixes sent are {sorted(together)} instead of {sorted(alone)}', 'input': inp}
+    for pfx in sorted(alone):
+        if together[pfx] != alone[pfx]:
+            return {'what': 'a route queued in the same window as another one is sent with other attributes than when it is queued alone', 'input': inp, 'prefix': pfx, 'alone': str(alone[pfx]), 'together': str(together[pfx])}
+    return None
+
+
+@bounded('C01', 'routes-sharing-a-window')
+def routes_sharing_a_window(tier, seed):
+    fails, evals = [], 0
+    for kind in ('ebgp4', 'ibgp4', 'ebgp2'):
+        for a, b in SHARING:
+            for x, y in ((a, b), (b, a)):
+                evals += 1
+                f = sharing_case(kind, x, y)
+                if f:
+                    fails.append(f)
+    return {'evaluations': evals, 'distinct_nontrivial': evals, 'bound': f'{len(SHARING)} pairs of route texts whose attribute sets differ by little (no as-path / an empty one, a zero value / none, sequence / set, order inside a list, ...), both orders, 3 session kinds, queued in one flush window of the real OutgoingRIB: each route leaves with the attributes it leaves with when queued alone', 'rule': 'one case = (session kind, ordered pair)', 'samples': [{'routes_in_one_window': list(SHARING[0])}], 'failures': fails}
+
+
+@replayer('C01', 'routes-sharing-a-window')
+def _replay_sharing(f):
+    return sharing_case(f['input']['kind'], *f['input']['routes_in_one_window']) is None
